@@ -179,6 +179,54 @@ pub fn run(ctx: &Ctx, st: &mut Stats) {
             st.count(&format!("hist.lat_band.{}", lat_band(site.lat.0)));
         }
     }
+    // clock-boundary seeking: longitudes (adjacent f64 values, and a few floats around them) at which the conventional
+    // Shurooq / Maghrib / Dhuhr / Asr sits within an ulp of a displayed-second (mode None) or rounding (other modes)
+    // boundary; a Fajr/Isha-only policy must reproduce those entries exactly there as well
+    let nb = ctx.quota(600, 40_000);
+    let mut rb = Rng::new(ctx.seed, 802, ctx.shard);
+    for _ in 0..nb {
+        let mut site = gen_site(&mut rb);
+        if rb.chance(0.5) {
+            // long summer days at high latitude (sunrise many hours before noon)
+            site.lat = X(rb.range(50.0, 66.0) * rb.sign());
+        }
+        site.lon = X(rb.range(-170.0, 170.0));
+        site.gmt = X((site.lon.0 / 15.0).round().clamp(-12.0, 12.0));
+        let date = if rb.chance(0.5) {
+            let y = rb.int(1600, 2399) as i32;
+            if site.lat.0 > 0.0 { ymd(y, rb.int(5, 7) as u32, rb.int(1, 28) as u32) } else { ymd(y, *rb.pick(&[11, 12, 1]), rb.int(1, 28) as u32) }
+        } else {
+            rand_date(&mut rb)
+        };
+        let method = rb.int(1, 8) as usize;
+        let mode = rb.int(0, 3) as usize;
+        let mut ps0 = PSpec::new(method);
+        ps0.mode = mode;
+        let p0 = ps0.build();
+        let pr = *rb.pick(&[Prayer::Shurooq, Prayer::Shurooq, Prayer::Maghrib, Prayer::Maghrib, Prayer::Dhuhr, Prayer::Asr]);
+        let unit = if mode == 0 { 1.0 } else { 60.0 };
+        let Some((a, b)) = super::seek_clock_boundary(st, &p0, site, date, None, pr, unit) else {
+            st.count("clock_boundary_seeks.none_found");
+            continue;
+        };
+        st.count(&format!("clock_boundary_seeks.{pr:?}.mode{mode}"));
+        let pols: Vec<&str> = (0..4).map(|_| *rb.pick(&POLICIES[1..])).collect();
+        for k in [0i64, -1, -2, -3, -5, -9, -17, -33, 1, 2, 4, 8, 16, 32] {
+            let lon = if k <= 0 { super::nudge_ulps(a, k) } else { super::nudge_ulps(b, k - 1) };
+            if !(-180.0..=180.0).contains(&lon) {
+                continue;
+            }
+            for pol in &pols {
+                let pl = if is_nearest_lat(pol) { Some(48.5 * site.lat.0.signum()) } else { None };
+                let mut ps = PSpec::new(method).with_policy(pol, pl);
+                ps.mode = mode;
+                let mut s2 = site;
+                s2.lon = X(lon);
+                let c = Case { site: s2, date: d2s(date), p: ps };
+                check(ctx, st, &c);
+            }
+        }
+    }
 
     st.extra.insert("rule".into(), json!("seeded random (site |lat|<=70 with a third of the mass on 45..70, date, named method) x all 14 policies, each paired with the None-policy run of the same input; non-trivial = the policy actually acted (some entry replaced, flagged, created or removed); distinct by input hash"));
 }
